@@ -65,7 +65,14 @@ impl StubVerifier {
         let s = Bytes::try_from_val(e, &sig_data).unwrap();
         let mut exp = k.clone();
         exp.append(&hash);
+        if s != exp && e.storage().instance().get(&soroban_sdk::symbol_short!("trap")).unwrap_or(false) {
+            // like the library's ed25519 verifier: a bad signature is reported by trapping, not by `false`
+            panic!("bad signature");
+        }
         s == exp
+    }
+    pub fn set_trapping(e: &Env, on: bool) {
+        e.storage().instance().set(&soroban_sdk::symbol_short!("trap"), &on);
     }
 }
 
@@ -117,6 +124,9 @@ pub enum Step {
 pub struct Cfg {
     pub start_ledger: u32,
     pub actors: usize,
+    /// the verifier reports a bad signature by trapping (as ed25519 does) instead of returning false
+    #[serde(default)]
+    pub verifier_traps: bool,
 }
 const ADMIN: SRef = SRef::Ext(99);
 const NAMES: [&str; 5] = ["r", "renamed-a", "renamed-b", "renamed-c", "multisig"];
@@ -328,7 +338,7 @@ impl Check for SmartAccount {
         }
     }
     fn generate(&self, rng: &mut Rng, tier: Tier) -> (Cfg, std::vec::Vec<Step>) {
-        let cfg = Cfg { start_ledger: 1 + rng.below(100_000) as u32, actors: 3 };
+        let cfg = Cfg { start_ledger: 1 + rng.below(100_000) as u32, actors: 3, verifier_traps: rng.chance(50) };
         let nsteps = if tier == Tier::Quick { 30 + rng.below(40) } else { 30 + rng.below(80) } as usize;
         let mut m = Model { now: cfg.start_ledger, next_id: 1, ..Default::default() };
         m.rules.push(Rule { name: 4, id: 0, ctype: CType::Default, until: None, signers: vec![ADMIN], policies: vec![] });
@@ -488,6 +498,9 @@ impl Check for SmartAccount {
         let w = W::new(cfg.actors, cfg.start_ledger, 16);
         let e = &w.e;
         let ver = e.register(StubVerifier, ());
+        if cfg.verifier_traps {
+            StubVerifierClient::new(e, &ver).set_trapping(&true);
+        }
         let pols: std::vec::Vec<Address> = (0..N_POL).map(|k| {
             let p = e.register(StubPolicy, ());
             StubPolicyClient::new(e, &p).set_tag(&(k as u32));
